@@ -387,13 +387,37 @@ type bop struct {
 type btype struct {
 	any      bool
 	min, max *int64
+	types    []string // parameter types (atoms any str int num bool) of Callable[T1,…,Tn,min,max]; nil: Callable[min,max]
+}
+
+// the parameter types of blocks and declared block types: a small family with evident assignability
+var bpName = map[string]string{"any": "Any", "str": "String", "int": "Integer", "num": "Numeric", "bool": "Boolean"}
+
+func bpList(e sx.Sexp) []string {
+	if !e.IsList {
+		panic(fmt.Errorf("bad parameter type list %s", e))
+	}
+	ps := []string{}
+	for _, p := range e.List {
+		if p.IsList || bpName[p.Atom] == "" {
+			panic(fmt.Errorf("bad parameter type %s", p))
+		}
+		ps = append(ps, p.Atom)
+	}
+	return ps
 }
 
 func (b *btype) src() string {
 	if b.any {
 		return "Callable"
 	}
-	return "Callable[" + bstr(b.min) + "," + bstr(b.max) + "]"
+	var sb strings.Builder
+	sb.WriteString("Callable[")
+	for _, p := range b.types {
+		sb.WriteString(bpName[p] + ",")
+	}
+	sb.WriteString(bstr(b.min) + "," + bstr(b.max) + "]")
+	return sb.String()
 }
 
 type disp struct {
@@ -406,6 +430,13 @@ func btOf(e sx.Sexp) *btype {
 		return &btype{any: true}
 	}
 	a := e.Args()
+	if e.Tag() == "ct" && len(a) == 3 {
+		b := &btype{types: bpList(a[0]), min: bound(a[1]), max: bound(a[2])}
+		if b.min == nil {
+			panic(fmt.Errorf("bad block type %s", e))
+		}
+		return b
+	}
 	if e.Tag() != "c" || len(a) != 2 {
 		panic(fmt.Errorf("bad block type %s", e))
 	}
@@ -440,8 +471,25 @@ func dispOf(e sx.Sexp) *disp {
 }
 
 type blockSpec struct {
-	min int64
-	max *int64
+	min   int64
+	max   *int64
+	types []string // one per parameter (atoms); nil: every parameter is Any — max of them, or min and a repeated one
+}
+
+// params: the parameter types of the lambda in order; with an unbounded max the last one is the repeated parameter
+func (b *blockSpec) params() []string {
+	if b.types != nil {
+		return b.types
+	}
+	n := b.min + 1
+	if b.max != nil {
+		n = *b.max
+	}
+	ps := make([]string, n)
+	for i := range ps {
+		ps[i] = "any"
+	}
+	return ps
 }
 
 // declaration as the *reference* reads the builder calls: parameters in order of appearance, the block
@@ -476,11 +524,11 @@ func (r *decl) accepts(c px.Context, env map[string]*ty, args []px.Value, blk *b
 			return "block"
 		}
 	case "required":
-		if blk == nil || !blockIsInstance(c, r.bt, block, cache) {
+		if blk == nil || !blockAccepts(c, r.bt, blk, cache) {
 			return "block"
 		}
 	case "optional":
-		if blk != nil && !blockIsInstance(c, r.bt, block, cache) {
+		if blk != nil && !blockAccepts(c, r.bt, blk, cache) {
 			return "block"
 		}
 	}
@@ -517,7 +565,59 @@ func (r *decl) accepts(c px.Context, env map[string]*ty, args []px.Value, blk *b
 	return ""
 }
 
-// blockIsInstance: the block requirement of the reference is "the block is an instance of the declared block type"
+// blockAccepts: the block requirement of the reference, read off the MEANING of a declared block type: the body may call the
+// block with every argument count k the declaration allows, argument j being of the declared type at position min(j, last)
+// (untyped: Any) — the block must take every such call: k within its own arity, and its parameter at position min(j, last)
+// accepting the declared type.  Only the assignability of single parameter types is asked of pcore (px.IsAssignable on two
+// scalar types); no Callable or Tuple rule of pcore takes part.  (The first reference re-implemented CallableWith's size
+// comparison, the second asked px.IsInstance(declared, block), which shares Tuple.IsAssignable with CallableWith and so
+// shares its defects — seeded change C16-s12; px.IsInstance is still evaluated, as the predicate block-instance-disagrees.)
+func blockAccepts(c px.Context, bt *btype, blk *blockSpec, cache map[string]px.Type) bool {
+	if bt.any {
+		return true
+	}
+	ps := blk.params()
+	ds := bt.types // none: Callable[min,max] says nothing about the types the block is called with (pcore: Unit) — arity only
+	tyOfAtom := func(a string) px.Type {
+		s := bpName[a]
+		t, ok := cache[s]
+		if !ok {
+			t = c.ParseType(s)
+			cache[s] = t
+		}
+		return t
+	}
+	top := int64(len(ds))
+	if int64(len(ps)) > top {
+		top = int64(len(ps))
+	}
+	kmax := top + 1 // an unbounded declaration: one call beyond both lists shows the repeated parameters
+	if bt.max != nil {
+		kmax = *bt.max
+	} else if blk.max != nil {
+		return false
+	}
+	for k := *bt.min; k <= kmax; k++ {
+		if k < blk.min || (blk.max != nil && k > *blk.max) {
+			return false
+		}
+		for j := int64(0); j < k && len(ds) > 0; j++ {
+			pj, dj := j, j
+			if pj > int64(len(ps))-1 {
+				pj = int64(len(ps)) - 1
+			}
+			if dj > int64(len(ds))-1 {
+				dj = int64(len(ds)) - 1
+			}
+			if pj < 0 || !px.IsAssignable(tyOfAtom(ps[pj]), tyOfAtom(ds[dj])) {
+				return false
+			}
+		}
+	}
+	return true
+}
+
+// blockIsInstance: px.IsInstance(declared block type, block) — the library's own answer, compared with blockAccepts
 func blockIsInstance(c px.Context, bt *btype, block px.Lambda, cache map[string]px.Type) bool {
 	s := bt.src()
 	t, ok := cache[s]
@@ -529,15 +629,18 @@ func blockIsInstance(c px.Context, bt *btype, block px.Lambda, cache map[string]
 }
 
 func makeBlock(c px.Context, b *blockSpec) px.Lambda {
+	ps := b.params()
 	f := px.BuildFunction("blk", nil, []px.DispatchCreator{func(d px.Dispatch) {
-		for i := int64(0); i < b.min; i++ {
-			d.Param("Any")
-		}
-		if b.max == nil {
-			d.RepeatedParam("Any")
-		} else {
-			for i := b.min; i < *b.max; i++ {
-				d.OptionalParam("Any")
+		for i, p := range ps {
+			switch {
+			case b.max == nil && i == len(ps)-1 && int64(i) < b.min:
+				d.RequiredRepeatedParam(bpName[p])
+			case b.max == nil && i == len(ps)-1:
+				d.RepeatedParam(bpName[p])
+			case int64(i) < b.min:
+				d.Param(bpName[p])
+			default:
+				d.OptionalParam(bpName[p])
 			}
 		}
 		d.Function(func(c px.Context, args []px.Value) px.Value { return px.Undef })
@@ -576,17 +679,8 @@ func execCall(c px.Context, args []sx.Sexp) core.Result {
 		}
 		vals = append(vals, valOf(c, e))
 	}
-	var blk *blockSpec
-	if args[3].IsList {
-		a := args[3].Args()
-		if args[3].Tag() != "b" || len(a) != 2 {
-			return core.Result{Out: "bad-op", Pred: "FAIL harness-bad-op blk"}
-		}
-		blk = &blockSpec{min: a[0].MustInt(), max: bound(a[1])}
-		if blk.min < 0 || blk.min > 8 || (blk.max != nil && (*blk.max < blk.min || *blk.max > 8)) {
-			return core.Result{Out: "bad-op", Pred: "FAIL harness-bad-op blk"}
-		}
-	} else if args[3].Atom != "nb" {
+	blk, okb := parseBlk(args[3])
+	if !okb {
 		return core.Result{Out: "bad-op", Pred: "FAIL harness-bad-op blk"}
 	}
 
@@ -751,6 +845,20 @@ func execCall(c px.Context, args []sx.Sexp) core.Result {
 		}
 	default:
 		res.Pred = fmt.Sprintf("FAIL nomatch-not-reported the call neither ran exactly one body nor raised a reported error: %s", out)
+	}
+	if res.Pred == "ok" && blk != nil {
+		// the library's own "the block is an instance of the declared block type" must say what the declaration means
+		for i, d := range ds {
+			dc := d.decl()
+			if dc.bt == nil || !d.fn2 {
+				continue
+			}
+			inst, acc := false, blockAccepts(c, dc.bt, blk, cache)
+			if o := safely(func() { inst = blockIsInstance(c, dc.bt, block, cache) }); o != "" || inst != acc {
+				res.Pred = fmt.Sprintf("FAIL block-instance-disagrees dispatch %d: px.IsInstance(%s, block) = %v%s but the block %s take every call the declaration allows", i, dc.bt.src(), inst, o, map[bool]string{true: "does", false: "does not"}[acc])
+				break
+			}
+		}
 	}
 	return res
 }
